@@ -1702,9 +1702,19 @@ func resolveIndex(v, index reflect.Value, indexAsStr string) (reflect.Value, err
 		// Slow path: use reflect directly
 		tField, ok := typ.FieldByName(key)
 		if ok {
-			field := v.FieldByIndex(tField.Index)
 			if tField.PkgPath != "" { // field is unexported
 				return reflect.Value{}, fmt.Errorf("%s is an unexported field of struct type %s", indexAsStr, v.Type())
+			}
+			// walk the index path by hand: reflect's FieldByIndex panics on a nil embedded pointer
+			field := v
+			for i, x := range tField.Index {
+				if i > 0 && field.Kind() == reflect.Ptr {
+					if field.IsNil() {
+						return reflect.Value{}, fmt.Errorf("nil pointer evaluating %s.%s (embedded %s is nil)", v.Type(), indexAsStr, field.Type())
+					}
+					field = field.Elem()
+				}
+				field = field.Field(x)
 			}
 			return indirectEface(field), nil
 		}
